@@ -64,6 +64,26 @@ def shrink_phase(rep, exe_impl, exe_model):
     if not cases:
         return False, 0, 0
     f, v = wk.run_cases(rep, exe_impl, None, cases, ["shrunk", "fault_reported"], what="shrinking source")
+    # "not a regular file when its turn comes": implementation only (the model has no device nodes) - the source has
+    # become a symbolic link to /dev/null (the `ln -sf /dev/null history` idiom): it opens, it is no directory, and it
+    # is not a regular file: nothing is added to the store
+    ncases = []
+    for i in range(6 if rep.tier == "quick" else 40):
+        s = wc.Script()
+        wc.setup_world(s, wc.base_cfg(deb=0))
+        srcp = rng.choice([wc.WATCH + "/inc/a.txt", wc.WATCH + "/inc/deep/er/b.c", wc.WATCH + "/hist.log"])
+        s.put(srcp, "was a file %d" % i)
+        s.start()
+        s.write(7, srcp)
+        s.rm(srcp)
+        s.add("symlink %s %s %d" % (wc.hexs(srcp), wc.hexs("/dev/null"), wc.CLOCK0))
+        s.dump()
+        s.timeout()
+        s.dump()
+        ncases.append(("n%d" % i, s.text(), {"history_rels": []}))
+    if not f:
+        f3, v3 = wk.run_cases(rep, exe_impl, None, ncases, ["faithful", "fault_reported"], what="source not regular")
+        f, v = f or f3, v + v3
     # "nothing is added to the store - no empty or partial file and no empty directories" when the copy is given up
     # because a call fails: every call of the copy of a file, of a history file and of a file whose name is taken fails
     # in turn (close of the new version included)
@@ -71,7 +91,7 @@ def shrink_phase(rep, exe_impl, exe_model):
     if not f:
         f2, v2 = wk.run_cases(rep, exe_impl, exe_model, fcases, ["no_partial", "fault_reported"], what="abandoned copy")   # (empty directories after a failing mkdir are not C05's business: it speaks of the SOURCE's conditions)
         f, v = f or f2, v + v2
-    return f, v, len(cases) + len(fcases)
+    return f, v, len(cases) + len(fcases) + len(ncases)
 
 
 def gen_policy_change_case(rng):
